@@ -328,13 +328,23 @@ func runC16(c *Ctx) {
 			foi = foiPath
 		}
 		r := Run(dir, 10*time.Second, 4096, []string{"GOMAXPROCS=2"}, filepath.Join(c.Bin, "fc"), foi, "m.fo")
+		if r.TimedOut {
+			// a loaded machine can starve a process for 10 s: a hang is only called after a second run with 60 s
+			c.Count("timeout_10s_retried")
+			if pre {
+				MustWrite(filepath.Join(dir, "gen_m.go"), marker)
+			} else {
+				os.Remove(filepath.Join(dir, "gen_m.go"))
+			}
+			r = Run(dir, 60*time.Second, 4096, []string{"GOMAXPROCS=2"}, filepath.Join(c.Bin, "fc"), foi, "m.fo")
+		}
 		c.Count("real_process_runs")
 		out := r.Stdout + r.Stderr
 		gen, gerr := os.ReadFile(filepath.Join(dir, "gen_m.go"))
-		rep := map[string]any{"case": cs, "fc_exit": r.Exit, "fc_output": trunc(out, 2000), "how": "fc <foi> m.fo under timeout 10s, ulimit -v 4GB"}
+		rep := map[string]any{"case": cs, "fc_exit": r.Exit, "fc_output": trunc(out, 2000), "how": "fc <foi> m.fo under timeout 10s (60s on retry), ulimit -v 4GB"}
 		switch {
 		case r.TimedOut:
-			c.Violate("hang", "fc does not terminate (killed after 10 s) on a "+cs.Kind+" input", rep, false)
+			c.Violate("hang", "fc does not terminate (killed after 10 s, and again after 60 s) on a "+cs.Kind+" input", rep, false)
 		case c16BadOutput(out) != "":
 			c.Violate("fatal", "fc dies of a Go runtime fatal error ("+c16BadOutput(out)+") on a "+cs.Kind+" input", rep, false)
 		case r.Exit == 0:
@@ -493,6 +503,12 @@ func c16Faults(c *Ctx) {
 		os.MkdirAll(dir, 0o755)
 		args := t.setup(dir)
 		r := Run(dir, 10*time.Second, 4096, []string{"GOMAXPROCS=2"}, fc, args...)
+		if r.TimedOut {
+			os.RemoveAll(dir)
+			os.MkdirAll(dir, 0o755)
+			args = t.setup(dir)
+			r = Run(dir, 60*time.Second, 4096, []string{"GOMAXPROCS=2"}, fc, args...)
+		}
 		c.Eval("fault:"+t.name, true)
 		c.Count("fault=" + t.name)
 		msg := ""
